@@ -61,12 +61,19 @@ ScalarRule(k) ==
     \* "BytesIO and IO[bytes]: value is represented as base64 encoded string" (both load to a BytesIO)
     [] k \in {"BytesIO", "IObytes"} -> [f |-> "b64bio", so |-> {"str"},          lo |-> {"str"}, same |-> {}]
     [] k \in MoreStringKinds -> [f |-> (IF k = "PathLike" THEN "Path" ELSE k), so |-> {"str"}, lo |-> {"str"}, same |-> {}]
+    \* the configurable providers: "to load and dump datetime to / from UNIX timestamp ... datetime_by_timestamp" [tz = UTC],
+    \* "date from UNIX timestamp ... date_by_timestamp", "to / from specific format ... datetime_by_format"
+    [] k = "datetime_ts"  -> [f |-> "ts",   so |-> {"int", "float"}, lo |-> {"int", "float"}, same |-> {}]
+    [] k = "date_ts"      -> [f |-> "dats", so |-> {"int", "float"}, lo |-> {"int", "float"}, same |-> {}]
+    [] k = "datetime_fmt" -> [f |-> "fmt",  so |-> {"str"},          lo |-> {"str"},          same |-> {}]
 ScalarKinds == {"int", "float", "str", "bool", "Decimal", "Fraction", "complex", "None", "Any", "bytes", "bytearray",
                 "date", "time", "datetime", "timedelta", "UUID", "Path", "IPv4Address", "Pattern",
-                "object", "LiteralString", "ByteString", "BytesIO", "IObytes"} \cup MoreStringKinds
+                "object", "LiteralString", "ByteString", "BytesIO", "IObytes", "datetime_ts", "date_ts", "datetime_fmt"} \cup MoreStringKinds
 \* "Loader takes any string accepted by the constructor": whether a NON-string the raw constructor happens to take
 \* (IPv4Address(1), UUID/Path given other objects) is accepted is not decided by the documentation
-StringOnlyKinds == {"UUID", "Path", "IPv4Address"} \cup MoreStringKinds
+StringOnlyKinds == {"UUID", "Path", "IPv4Address", "datetime_fmt"} \cup MoreStringKinds
+\* "UNIX timestamp": an int or a float; whether another number the raw function happens to take (True, Decimal(1)) is one is not decided
+NumberOnlyKinds == {"datetime_ts", "date_ts"}
 
 OriginOk(k, t, s) == LET r == ScalarRule(k)
                          o == IF s THEN r.so ELSE r.lo
@@ -85,6 +92,7 @@ ScalarAcc(k, d, s) ==
 
 ScalarUndef(k, d, s) == /\ IsAtom(d)
                         /\ \/ (k \in StringOnlyKinds /\ PyTypeOf[d.a] # "str")
+                           \/ (k \in NumberOnlyKinds /\ PyTypeOf[d.a] \notin {"int", "float"})
                            \/ (d.a \in SubclassAtoms /\ k \notin {"Any", "object"})     \* the rules name the classes, not their subclasses
 
 (* ------------------------------ iterables ------------------------------------------- *)
